@@ -214,18 +214,15 @@ Definition C16_interval_group :=
   (C16_pvoigt_closed_form, C16_symmetric_pvoigt, C16_half_max_pvoigt,
    C16_gaussian_integral_partial, C16_pvoigt_integral_partial).
 Print Assumptions C16_interval_group.
-Print Assumptions C16_gaussian_closed_form.
-Print Assumptions C16_lorentzian_closed_form.
-Print Assumptions C16_gaussian_fwhm.
-Print Assumptions C16_lorentzian_fwhm.
-Print Assumptions C16_pvoigt_fwhm.
-Print Assumptions C16_symmetric_gaussian.
-Print Assumptions C16_symmetric_lorentzian.
-Print Assumptions C16_half_max_gaussian.
-Print Assumptions C16_half_max_lorentzian.
-Print Assumptions C16_lorentzian_integral.
-Print Assumptions C16_lorentzian_integral_limit.
-Print Assumptions C16_polynomial_is_sum_deg6.
+(* the theorems over R about the regenerated terms that do not use coq-interval share one listing
+   too (each listing traverses the real-number library: ~1 s) *)
+Definition C16_closed_form_group :=
+  (C16_gaussian_closed_form, C16_lorentzian_closed_form, C16_gaussian_fwhm, C16_lorentzian_fwhm,
+   C16_pvoigt_fwhm, C16_symmetric_gaussian, C16_symmetric_lorentzian, C16_half_max_gaussian,
+   C16_half_max_lorentzian, C16_polynomial_is_sum_deg6).
+Print Assumptions C16_closed_form_group.
+Definition C16_lorentzian_integral_group := (C16_lorentzian_integral, C16_lorentzian_integral_limit).
+Print Assumptions C16_lorentzian_integral_group.
 Print Assumptions C16_polynomial_is_sum_all_degrees.
 Print Assumptions C16_prefix_strip.
 Print Assumptions C16_prefix_irrelevant.
